@@ -557,7 +557,7 @@ fn inside_level(a: Point, b: Point, v: Point, o: Orientation, lt: f64) -> bool {
 /// `coincident-level-edges`: the vertex lies on a level (sweep-horizontal) input edge (or level
 /// chord of a flattened curve) that has `id` as an end (`merge_coincident_edges` computes the split parameter with
 /// `solve_t_for_y`, which is 0 for a level edge).
-fn classify_endpoint(geom: &HashMap<(u32, u32), Geom>, pid: Point, v: Point, o: Orientation, tol: f32, lt: f64) -> &'static str {
+fn classify_endpoint(geom: &HashMap<(u32, u32), Geom>, pid: Point, v: Point, o: Orientation, tol: f32, lt: f64, id: u32, verts: &[VRec], vi: usize) -> &'static str {
     let mut keys: Vec<&(u32, u32)> = geom.keys().collect();
     keys.sort();
     for k in &keys {
@@ -573,6 +573,20 @@ fn classify_endpoint(geom: &HashMap<(u32, u32), Geom>, pid: Point, v: Point, o: 
         if g.a == pid || g.seg.to() == pid {
             if flatten_seg(g.a, &g.seg, false, tol, o).iter().chain(flatten_seg(g.a, &g.seg, true, tol, o).iter()).any(|(pa, pb, _, _)| inside_level(*pa, *pb, v, o, lt)) {
                 return "coincident-level-edges";
+            }
+        }
+    }
+    // `double-flip-vertex-event`: `process_intersection` flipped both cut-off parts (rounding at
+    // large magnitudes) and inserted `vertex_event_sorted(intersection, b.to_id)`: a vertex event
+    // carrying the id of the lower end of an edge, at the intersection position on that edge,
+    // an ulp away from the vertex of the intersection itself
+    for k in &keys {
+        let g = &geom[*k];
+        if !g.seg.is_curve() && k.1 == id {
+            let (u, d) = project(g.a, g.seg.to(), v);
+            let twin = verts.iter().enumerate().any(|(wi, w)| wi != vi && dist64((w.pos.x as f64, w.pos.y as f64), v) <= 8.0 * lt);
+            if u > 0.0 && u < 1.0 && d <= lt && twin && verts[vi].sources.len() == 1 {
+                return "double-flip-vertex-event";
             }
         }
     }
@@ -709,20 +723,23 @@ fn check_run_inner(spec: &Spec, at: &AttrSpec, cfg: &Cfg, run: &Run, orc: &mut F
                 VertexSource::Endpoint { id } => match pos_of.get(&id.0) {
                     None => orc.check(false, "fill.vertex/endpoint-source-known", "generic", || format!("vertex {} source endpoint {} is not an endpoint of the path", vi, id.0)),
                     Some(p) => {
-                        if *p != v.pos {
-                            let class = classify_endpoint(&geom, *p, v.pos, cfg.orientation, cfg.tol, lvl);
+                        // exact, up to the rounding of an intersection that lands on the endpoint
+                        // (its parameter rounds to 0 or 1 while its position is an ulp off)
+                        if *p != v.pos && !(dist64((p.x as f64, p.y as f64), v.pos) <= lvl && v.sources.len() > 1) {
+                            let class = classify_endpoint(&geom, *p, v.pos, cfg.orientation, cfg.tol, lvl, id.0, &run.verts, vi);
                             orc.check(false, "fill.vertex/endpoint-source-position", class, || {
                                 format!("vertex {} at {:?} lists endpoint {} which is at {:?}", vi, v.pos, id.0, p)
                             });
                         }
                     }
                 },
-                // (an edge following a repeated point keeps the id of the first copy of the point:
-                // `line_segment` returns early on `from == to` without advancing the id; such an
-                // edge is identified through the positions of its ends)
+                // (an edge following a repeated point / a curve that flattens to nothing keeps the id
+                // of the first copy of the point: the builders return early without advancing
+                // `prev_endpoint_id`; such an edge is identified through its `to` id and the
+                // position of its start)
                 VertexSource::Edge { from, to, t } => match geom.get(&(from.0, to.0)).or_else(|| {
                     let (pf, pt) = (pos_of.get(&from.0)?, pos_of.get(&to.0)?);
-                    let mut c: Vec<(&(u32, u32), &Geom)> = geom.iter().filter(|(_, g)| g.a == *pf && g.seg.to() == *pt && (g.seg.is_curve() || g.a != g.seg.to())).collect();
+                    let mut c: Vec<(&(u32, u32), &Geom)> = geom.iter().filter(|(k, g)| k.1 == to.0 && g.a == *pf && g.seg.to() == *pt).collect();
                     c.sort_by_key(|(k, _)| **k);
                     c.first().map(|(_, g)| *g)
                 }) {
@@ -753,19 +770,35 @@ fn check_run_inner(spec: &Spec, at: &AttrSpec, cfg: &Cfg, run: &Run, orc: &mut F
                                 // the tolerance of the curve)
                                 let flat = flatten_seg(g.a, curve, false, cfg.tol, cfg.orientation);
                                 let hit = at_param(&flat, tt);
-                                let d = hit.map_or(f64::INFINITY, |h| dist64(h.3, v.pos));
+                                let mut d = hit.map_or(f64::INFINITY, |h| dist64(h.3, v.pos));
+                                let reversed = is_after(sweep(g.a, cfg.orientation), sweep(curve.to(), cfg.orientation));
+                                let rflat = flatten_seg(g.a, curve, true, cfg.tol, cfg.orientation);
+                                if reversed && !(d <= env) {
+                                    // a curve drawn against the sweep is flattened from its end: the
+                                    // flattening of the flipped curve, read at 1 - t, is the same
+                                    // polyline with the parameter measured from `from`
+                                    d = d.min(at_param(&rflat, 1.0 - tt).map_or(f64::INFINITY, |h| dist64(h.3, v.pos)));
+                                }
                                 if !(d <= env) {
-                                    let rflat = flatten_seg(g.a, curve, true, cfg.tol, cfg.orientation);
                                     let rhit = at_param(&rflat, tt);
-                                    let reversed = is_after(sweep(g.a, cfg.orientation), sweep(curve.to(), cfg.orientation));
                                     let class = if reversed && rhit.map_or(false, |h| dist64(h.3, v.pos) <= env) {
                                         "reversed-curve"
                                     } else if flat.iter().chain(rflat.iter()).any(|(pa, pb, _, _)| inside_level(*pa, *pb, v.pos, cfg.orientation, lvl)) {
                                         "coincident-level-edges"
-                                    } else if let Some((pa, pb, u, _, t0, t1)) = if reversed { rhit } else { hit } {
-                                        classify(&run.verts, vi, pa, pb, from, to, u, env + cfg.tol as f64 + 1e-3, t0, t1)
                                     } else {
-                                        "generic"
+                                        // the chord that carries the reported parameter, under each
+                                        // reading of it (as stored today / measured from `from`)
+                                        let mut cands = vec![hit, rhit];
+                                        if reversed {
+                                            cands.push(at_param(&rflat, 1.0 - tt).map(|h| (h.1, h.0, 1.0 - h.2, h.3, 1.0 - h.5, 1.0 - h.4)));
+                                        }
+                                        if cands.iter().flatten().any(|(pa, pb, u, _, t0, t1)| {
+                                            classify(&run.verts, vi, *pa, *pb, from, to, *u, env + cfg.tol as f64 + 1e-3, *t0, *t1) != "generic"
+                                        }) {
+                                            "split-at-vertex-then-cut"
+                                        } else {
+                                            "generic"
+                                        }
                                     };
                                     orc.check(false, "fill.vertex/curve-source-position", class, || {
                                         format!("vertex {} at {:?}: curve from {:?} {:?} t = {}: flattened curve at t is {:?}, {:.3e} away (allowed {:.1e})", vi, v.pos, g.a, curve, t, hit.map(|h| h.3), d, env)
@@ -778,8 +811,8 @@ fn check_run_inner(spec: &Spec, at: &AttrSpec, cfg: &Cfg, run: &Run, orc: &mut F
             }
         }
         if let Some(id) = v.ep {
-            let good = pos_of.get(&id.0).map_or(false, |p| *p == v.pos);
-            let class = if good { "generic" } else { pos_of.get(&id.0).map_or("generic", |p| classify_endpoint(&geom, *p, v.pos, cfg.orientation, cfg.tol, lvl)) };
+            let good = pos_of.get(&id.0).map_or(false, |p| *p == v.pos || (dist64((p.x as f64, p.y as f64), v.pos) <= lvl && v.sources.len() > 1));
+            let class = if good { "generic" } else { pos_of.get(&id.0).map_or("generic", |p| classify_endpoint(&geom, *p, v.pos, cfg.orientation, cfg.tol, lvl, id.0, &run.verts, vi)) };
             orc.check(good, "fill.vertex/as-endpoint-id-position", class, || {
                 format!("vertex {} at {:?}: as_endpoint_id = {} which is at {:?}", vi, v.pos, id.0, pos_of.get(&id.0))
             });
